@@ -228,6 +228,9 @@ func (g *gen) call0(x *ssa.Call, st State, reach string) string {
 			if !g.importComp(comp) {
 				continue
 			}
+			if strings.HasPrefix(comp, "ghost_") && g.ghostPrivate(strings.TrimPrefix(comp, "ghost_")) {
+				continue // only the function under verification assigns this ghost (see ghostPrivate)
+			}
 			if comp == "alloctop" {
 				n := g.ctx.fresh("alloctop", "Int")
 				g.ctx.assume("(>= " + n + " " + top0 + ")")
@@ -486,6 +489,14 @@ func (g *gen) builtin(x *ssa.Call, b *ssa.Builtin, st State, reach string) strin
 			g.setVal(x, fmt.Sprint(args[0].Type().Underlying().(*types.Array).Len()))
 		case *types.Pointer:
 			g.setVal(x, fmt.Sprint(args[0].Type().Underlying().(*types.Pointer).Elem().Underlying().(*types.Array).Len()))
+		case *types.Chan:
+			// number of queued elements: a heap component indexed by the channel, changed by sends and
+			// receives in this function and by callees that send or receive (sequential view: another
+			// goroutine's sends/receives between two reads are not modelled)
+			comp := g.ctx.comp("chanlen", "(Array Int Int)")
+			n := g.define(x.Name(), "Int", "(select "+g.stGet(st, comp)+" "+v.T+")")
+			g.ctx.assume("(>= " + n + " 0)")
+			g.vals[x] = Val{T: n, S: "Int", GoT: x.Type()}
 		default:
 			hv := g.havocVal("len", x.Type(), st, reach)
 			g.ctx.assume("(>= " + hv.T + " 0)")
